@@ -148,6 +148,49 @@ fn hash_case<const P: u128>(ctx: &mut Ctx, rng: &mut Rng, pname: &str) {
         }
         ctx.count("sdd_representations", 1);
     }
+    // hand-built nodes through the public constructors (as rsdd's own unit tests build
+    // them), also in shapes no builder stores (complemented / false high edge): the cached
+    // hash is still the hash of the denoted function
+    if n >= 2 {
+        let perm = rng.perm(n);
+        let top = perm[0];
+        let lo_t = Tt::random(n, n, rng).cofactor(top, false);
+        let hi_t = Tt::random(n, n, rng).cofactor(top, true);
+        let node_t = Tt::var(n, top).ite(&hi_t, &lo_t);
+        let node_want = defining_sum(&node_t, &map);
+        // SDD: right-linear vtree with `top` first
+        let vt = Vt::right_linear(&perm);
+        let builder = CompressionSddBuilder::new(vt.to_rsdd());
+        let b = &builder;
+        let lo = sdd_from_tt(b, &lo_t, 0);
+        let hi = sdd_from_tt(b, &hi_t, 0);
+        for (l, h, tt, want_h, shape) in [
+            (lo, hi, node_t.clone(), node_want, "as given"),
+            (lo.neg(), hi.neg(), node_t.not(), submod(1, node_want, P), "both children negated"),
+        ] {
+            let node = rsdd::repr::BinarySDD::new(VarLabel::new(top as u64), l, h, b.vtree_manager().var_index(VarLabel::new(top as u64)));
+            let p = SddPtr::BDD(&node);
+            let what = json!({"handbuilt_binary_sdd": shape, "top": top, "high_is_complemented": h.is_neg(), "function": tt.hex()});
+            check(ctx, p.cached_semantic_hash(b.vtree_manager(), &map).value(), want_h, "hash.sdd.handbuilt.cached", what.clone());
+            check(ctx, p.semantic_hash(&map).value(), want_h, "hash.sdd.handbuilt", what.clone());
+            check(ctx, p.neg().cached_semantic_hash(b.vtree_manager(), &map).value(), submod(1, want_h, P), "hash.sdd.handbuilt.cached_neg", what);
+            ctx.count("handbuilt_nodes", 1);
+        }
+        // BDD: order = perm
+        let cfg = HistCfg { n0: n, max_new: 0, order: perm.clone(), cache: CacheKind::All, uniq_cap: Some(128), lru_bits: Some(5), nops: 0 };
+        with_robdd!(cfg, bb, {
+            let lo = bdd_from_tt(bb, &lo_t, &cfg.order, 0);
+            let hi = bdd_from_tt(bb, &hi_t, &cfg.order, 0);
+            for (l, h, want_h, shape) in [(lo, hi, node_want, "as given"), (lo.neg(), hi.neg(), submod(1, node_want, P), "both children negated")] {
+                let node = rsdd::repr::BddNode::new(VarLabel::new(top as u64), l, h);
+                let p = BddPtr::Reg(&node);
+                let what = json!({"handbuilt_bdd_node": shape, "top": top, "high_is_complemented": h.is_neg()});
+                check(ctx, p.cached_semantic_hash(bb.order_ref(), &map).value(), want_h, "hash.bdd.handbuilt.cached", what.clone());
+                check(ctx, p.semantic_hash(&map).value(), want_h, "hash.bdd.handbuilt", what);
+                ctx.count("handbuilt_nodes", 1);
+            }
+        });
+    }
     // top-down decision-DNNFs under several orders
     if let Some(cl) = &cl {
         let cnf = clauses_to_cnf(cl);
@@ -196,6 +239,20 @@ fn semantic_sdd_case<const P: u128>(ctx: &mut Ctx, rng: &mut Rng, check_function
         ops.push(Op::Or((base + 2, false), (base + 3, false))); // base+4
         ops.push(Op::Cond((base + 4, false), vs[3], true));
         ops.push(Op::Exists((base + 4, false), vs[3]));
+    }
+    if n >= 3 && rng.chance(1, 2) {
+        // template "one function along two routes": d = z & (x & (y | z)) equals x & z but is
+        // reached through descendants (stored as an or-node of a different shape, possibly
+        // complemented); afterwards x & z is requested directly from the literals
+        let vs = rng.perm(n);
+        let (x, y, z) = ((2 + vs[0], rng.bool()), (2 + vs[1], rng.bool()), (2 + vs[2], rng.bool()));
+        let base = 2 + n + ops.len();
+        ops.push(Op::Or(y, z)); // base
+        ops.push(Op::And(x, (base, false))); // base+1
+        ops.push(Op::And(z, (base + 1, false))); // base+2  == x & z
+        ops.push(Op::And(x, z)); // base+3  == x & z, directly
+        ops.push(Op::Or((x.0, !x.1), (z.0, !z.1))); // base+4 == !(x & z), directly
+        ops.push(Op::And((base + 2, true), (base + 3, false))); // must be false
     }
     // condition / quantify the recent results on every variable now and then: this is
     // what leaves untrimmed nodes that denote literals or constants
